@@ -292,6 +292,47 @@ def parallel(run, jobs=4):
 
 
 # ---------------------------------------------------------------- transcript handling
+# the comparisons of coq/SeqCmps.v (z_cmp), on values
+CMP_NAMES = ['lt', 'gt', 'le', 'ge', 'abs-lt', 'key(|v|/4)-lt', 'never', 'always']
+CMPS = [lambda x, y: x < y, lambda x, y: x > y, lambda x, y: x <= y, lambda x, y: x >= y,
+        lambda x, y: abs(x) < abs(y), lambda x, y: abs(x) // 4 < abs(y) // 4, lambda x, y: False, lambda x, y: True]
+CMP_IN_CONTRACT = [0, 1, 4, 5, 6]     # asymmetric and transitive (SeqCmps.cmp_in_contract)
+
+
+def cmp_of(case):
+    fl = case[1:case.index('|')]
+    return int(fl[fl.index('c') + 1]) if 'c' in fl else 0
+
+
+def gen_sortby(rng, kind, k):
+    """sort_by(t, f) with comparison k on ascending / descending / all-equal / duplicate-laden / single /
+    empty / random contents (installed by new or assign right before the sort), then a few more operations
+    and possibly a second sort"""
+    def contents():
+        form = rng.choice(['asc', 'asc', 'desc', 'eq', 'dups', 'single', 'empty', 'random', 'random', 'signs'])
+        n = rng.choice([2, 3, 5, 6, 7, 12, 20])
+        if form == 'empty': return []
+        if form == 'single': return [rng.randrange(-9, 10)]
+        if form == 'eq': return [rng.randrange(-9, 10)] * n
+        if form == 'dups': vs = [rng.randrange(0, 4) for _ in range(n)]
+        elif form == 'signs': vs = [rng.choice([-1, 1]) * rng.randrange(0, 12) for _ in range(n)]
+        else: vs = [rng.randrange(-50, 100) for _ in range(n)]
+        if form == 'asc': vs.sort()
+        if form == 'desc': vs.sort(reverse=True)
+        if form == 'asc' and rng.random() < .5: vs = sorted(set(vs))
+        return vs
+    toks = ['N' + ','.join(map(str, contents())), 't']
+    for _ in range(rng.randrange(0, 4)):
+        r = rng.random()
+        if r < .4:
+            src = rng.choice(KINDS if kind == 'T' else 'AL')
+            toks += ['n%s:%s' % (src, ','.join(map(str, contents()))), 't']
+        elif r < .6: toks.append('u%d' % rng.randrange(-9, 10))
+        elif r < .8: toks += ['i0,%d' % rng.randrange(-9, 10), 't']
+        else: toks.append('t')
+    return '%sc%d|%s' % (kind, k, ' '.join(toks))
+
+
 def list_cursor_flags(ctx):
     """white-box: if struct List carries a cached position (a pointer field X next to an integer field
     X_index / X_idx / X_pos) tell the harness its names, so that it can check the cache against the links"""
@@ -323,6 +364,7 @@ def oracle(case, impl, spec):
     """implementation vs the abstract-sequence specification, only while the history stays inside
     the in-range contract (the specification prints OOR from the first operation outside it on)"""
     pi, ps = steps(impl), steps(spec)
+    ops = [t for t in split(case)[1] if t[0] != 'N']
     for n, b in enumerate(ps):
         if b == 'OOR':
             return None
@@ -357,6 +399,25 @@ def oracle(case, impl, spec):
         if len(a) != 7:
             return 'step %d: %s' % (n, pi[n])
         out, ln, g, ng, it, mm, w = a
+        if g != b[2] and n >= 1 and n - 1 < len(ops) and ops[n - 1].rstrip('!^~') == 't' and ng == '=' and it == '=':
+            # sort is specified, not computed: any permutation of the previous contents without an inversion
+            # under the GIVEN comparison is right (ties may come out in another order than the reference
+            # sort's); the specification's own sequence is then no longer the implementation's: stop here
+            f = CMPS[cmp_of(case)]
+            try:
+                got = [int(x) for x in g.split(',')] if g else []
+                prev = ps[n - 1].split(';')
+                before = [int(x) for x in prev[2].split(',')] if len(prev) == 4 and prev[2] else None
+            except ValueError:
+                return 'step %d: %s' % (n, pi[n])
+            if before is not None and sorted(got) != sorted(before):
+                return 'step %d: sort_by left [%s], not a permutation of [%s]' % (n, g, prev[2])
+            for j in range(len(got)):
+                for i in range(j):
+                    if f(got[j], got[i]):
+                        return ('step %d: sort_by(%s) left [%s]: element %d at index %d must not come after %d at index %d'
+                                % (n, CMP_NAMES[cmp_of(case)], g, got[j], j, got[i], i))
+            return None
         if g != b[2]:
             return 'step %d: get(0..len-1) = [%s], the abstract sequence is [%s]' % (n, g, b[2])
         if ng != '=':
@@ -386,11 +447,30 @@ def corr(case, impl, model):
         return None
     a, b = steps(impl), steps(model)
     exact = EXACT_CAPACITY[0]
+    ops = [t for t in split(case)[1] if t[0] != 'N']
     for n, (x, y) in enumerate(zip(a, b)):
         if raised(x.split(';')[0]):
             exact = False
         if x != y:
             fx, fy = x.split(';'), y.split(';')
+            if (n >= 1 and n - 1 < len(ops) and ops[n - 1].rstrip('!^~') == 't' and len(fx) == 7 and len(fy) == 7
+                    and fx[:2] == fy[:2] and fx[3:] == fy[3:] and fx[3] == '=' and fx[4] == '='):
+                # a sort whose result differs from the modelled quicksort's only in the order of the elements:
+                # which of the valid orders comes out (ties; any order at all for a comparison outside the
+                # sort contract) is the algorithm's choice, not the property's.  Accept a permutation of the
+                # previous contents that has no inversion under an in-contract comparison, and stop
+                # comparing this case (the states differ from here on)
+                k = cmp_of(case)
+                try:
+                    got = [int(v) for v in fx[2].split(',')] if fx[2] else []
+                    want = [int(v) for v in fy[2].split(',')] if fy[2] else []
+                except ValueError:
+                    return 'step %d: implementation %s / model %s' % (n, x, y)
+                if sorted(got) != sorted(want):
+                    return 'step %d: sort left [%s], not a permutation of the model\'s [%s]' % (n, fx[2], fy[2])
+                if k in CMP_IN_CONTRACT and any(CMPS[k](got[j], got[i]) for j in range(len(got)) for i in range(j)):
+                    return 'step %d: sort_by(%s) left [%s], which has an inversion (model: [%s])' % (n, CMP_NAMES[k], fx[2], fy[2])
+                return None
             if case[0] == 'A' and len(fx) == 7 and len(fy) == 7 and fx[:6] == fy[:6] and fx[6].isdigit() and fx[1].isdigit():
                 if exact:
                     return 'step %d: capacity %s, the model (policy read from the source) says %s: %s' % (n, fx[6], fy[6], x)
@@ -451,6 +531,9 @@ CORPUS = [
     # access-pattern dependent state (seeded C04-r5-2: cursor cache in List_At not reset by an insertion)
     'L*|N0,1,2,3,4,5,6,7 i3,9 g4 g2 i1,8 g3 s4,7 g5^', 'L*|N0,1,2,3,4,5 g3 i0,9 g4 i-2,8 g-1 d2 g2~',
     'A*|N0,1,2,3,4,5,6,7 i3,9 g4 g2 i1,8 g3 s4,7 g5^', 'T*|N0,1,2,3,4,5,6,7 i3,9 g4 g2 i1,8 g3 s4,7 g5^',
+    # sort_by with the caller's comparison on already ascending input (seeded C04-r7-2: "already in order" scan with lt)
+    'Tc1|N1,2,3,4,5,6 t', 'Ac1|N1,2,3,4,5,6 t', 'Tc1|N1,2,2,3,3,3,7 t', 'Tc1|N1,2 t', 'Tc1|N3,1,2 t t', 'Tc4|N-1,2,-3,4 t',
+    'Tc5|N9,1,5,2,8 t u3', 'Ac6|N3,1,2 t', 'Tc6|N3,1,2 t', 'Ac2|N2,1,2 t', 'Tc3|N2,1,2 t', 'Ac7|N2,1,3 t', 'Tc7|N2,1,3 t',
     # struct elements whose size is not a multiple of 8 moved by swap (seeded C04-r5-1: memswap tail)
     'Ae12|N50,10,40,20,30 i0,5 i2,60 t', 'Ae6|N50,10,40,20,30 i0,5 i2,60 t', 'Ae20|N3,2,1 i1,9 t',
     'Ae1|N250,3,7 i1,9 t', 'Ae2|N250,3,7 i1,9 t', 'Ae4|N250,3,7 i1,9 t', 'Le12|N50,10,40 i1,5 s-1,7 z5',
@@ -562,6 +645,12 @@ def run(ctx):
         el = [gen_elem(ctx.rng, kind, sz, 30) for sz in ELEM_SIZES for _ in range(nel)]
         for i in range(0, len(el), 1000):
             d.feed(el[i:i + 1000])
+    # sort_by with every comparison of coq/SeqCmps.v on Array and Tuple (le, ge, always are outside the sort
+    # theorem's contract: compared with the model only)
+    nsb = 60 if quick else 1500
+    sb = [gen_sortby(ctx.rng, kind, k) for kind in 'AT' for k in range(8) for _ in range(nsb)]
+    for i in range(0, len(sb), 1000):
+        d.feed(sb[i:i + 1000])
     ninv = 400 if quick else 4000
     inv = [gen_invalid(ctx.rng, k, 12) for k in 'ALTS' for _ in range(ninv)]
     for i in range(0, len(inv), 1000):
